@@ -10,8 +10,6 @@ import (
 	"golang.org/x/sys/unix"
 )
 
-var debugOracle bool
-
 func (s *searcher) run() bool {
 	m := newModel(s.recurse)
 	m.FindAdd = s.findAdd
